@@ -14,7 +14,7 @@ from .common import Check
 IA, DR, EM, TR, TK, SP = "droplets.image_analysis", "droplets.droplets", "droplets.emulsions", "droplets.droplet_tracks", "droplets.trackers", "droplets.tools.spherical"
 # the repository functions each hand-written model mirrors (fingerprints of their current source go into the evidence)
 MODELLED = {
-    "C01": [f"{IA}._locate_droplets_in_mask_cartesian", f"{IA}._locate_droplets_in_mask_spherical", f"{IA}._locate_droplets_in_mask_cylindrical", f"{IA}.locate_droplets", f"{EM}.Emulsion.get_phasefield", f"{SP}.polar_coordinates"],
+    "C01": [f"{IA}._locate_droplets_in_mask_cartesian", f"{IA}._locate_droplets_in_mask_spherical", f"{IA}._locate_droplets_in_mask_cylindrical_single", f"{IA}._locate_droplets_in_mask_cylindrical", f"{IA}.locate_droplets", f"{EM}.Emulsion.get_phasefield", f"{EM}.Emulsion.remove_overlapping", f"{SP}.polar_coordinates", f"{SP}.radius_from_volume"],
     "C02": [f"{IA}._locate_droplets_in_mask_cartesian", f"{IA}._locate_droplets_in_mask_cylindrical_single", f"{IA}._locate_droplets_in_mask_cylindrical", f"{EM}.Emulsion.remove_overlapping"],
     "C03": [f"{SP}.polar_coordinates", f"{DR}.SphericalDroplet._get_phase_field", f"{DR}.DiffuseDroplet._get_phase_field", f"{DR}.PerturbedDropletBase._get_phase_field", f"{DR}.SphericalDroplet.get_phase_field", f"{EM}.Emulsion.get_phasefield"],
     "C04": [f"{IA}.refine_droplet", f"{DR}.SphericalDroplet.data_bounds", f"{DR}.DiffuseDroplet.data_bounds", f"{DR}.PerturbedDropletBase.data_bounds"],
